@@ -244,9 +244,15 @@ Definition protected_except (known : list (string * string)) (t : list arow) : b
 Definition protected_tbl (t : list arow) : bool := protected_except [] t.
 
 (* all start-up modes: every sublist of the (distinct, non-empty) conditions in the table *)
+Fixpoint dedup (l : list string) : list string :=
+  match l with
+  | [] => []
+  | s :: l' => let d := dedup l' in if mem s d then d else s :: d
+  end.
+
 Definition conds (t : access_table) : list string :=
   filter (fun c => negb (String.eqb c ""))
-         (nodup string_dec (flat_map (fun r => r_cond r :: map snd (r_held r)) t)).
+         (dedup (flat_map (fun r => r_cond r :: map snd (r_held r)) t)).
 
 Fixpoint sublists {A} (l : list A) : list (list A) :=
   match l with
@@ -266,8 +272,8 @@ Definition protected (t : access_table) : bool := protected_except_all [] t.
 Definition unprotected_in (on : list string) (t : access_table) (r : row) : bool :=
   active on (r_cond r) && negb (row_protected (inst on t) (inst_row on r)).
 
-Definition row_unprotected (t : access_table) (r : row) : bool :=
-  existsb (fun on => unprotected_in on t r) (modes t).
+Definition row_unprotected_in (ms : list (list string)) (t : access_table) (r : row) : bool :=
+  existsb (fun on => unprotected_in on t r) ms.
 
 Fixpoint indices_where {A} (f : A -> bool) (l : list A) (i : nat) : list nat :=
   match l with
@@ -276,15 +282,15 @@ Fixpoint indices_where {A} (f : A -> bool) (l : list A) (i : nat) : list nat :=
   end.
 
 Definition unprotected_indices (t : access_table) : list nat :=
-  indices_where (row_unprotected t) t 0.
+  let ms := modes t in indices_where (row_unprotected_in ms t) t 0.
 
 (* a partner for the report: index of the first row that conflicts with row r without a common
    lock in some mode *)
-Definition partner_of (t : access_table) (r : row) : option nat :=
+Definition partner_of (ms : list (list string)) (t : access_table) (r : row) : option nat :=
   let bad on b := active on (r_cond r) && active on (r_cond b) &&
                   rows_conflict (inst_row on r) (inst_row on b) &&
                   negb (common_lock (ar_held (inst_row on r)) (ar_held (inst_row on b))) in
-  match indices_where (fun b => existsb (fun on => bad on b) (modes t)) t 0 with
+  match indices_where (fun b => existsb (fun on => bad on b) ms) t 0 with
   | i :: _ => Some i
   | [] => None
   end.
